@@ -1,7 +1,10 @@
 package gen
 
 import (
+	"strconv"
+
 	"verif/harness/ast"
+	"verif/harness/jsonx"
 
 	"pgregory.net/rapid"
 )
@@ -239,4 +242,97 @@ func redundant(t *rapid.T, n *ast.Node) *ast.Node {
 		return ast.Paren(&c)
 	}
 	return &c
+}
+
+// ReadPath draws a read-only expression over $ that follows the document's
+// real structure for a while and then (often) steps off it: missing members,
+// indices past the end, members of scalars, pure method calls.
+func ReadPath(doc *jsonx.Val) *rapid.Generator[*ast.Node] {
+	return rapid.Custom(func(t *rapid.T) *ast.Node {
+		e := ast.Dollar()
+		cur := doc
+		if cur != nil && cur.K == jsonx.Arr && len(cur.Items) > 0 {
+			// with an array root, $ is an element
+			cur = cur.Items[0]
+		}
+		depth := rapid.IntRange(1, 4).Draw(t, "pdepth")
+		for d := 0; d < depth; d++ {
+			switch {
+			case cur != nil && cur.K == jsonx.Arr:
+				n := len(cur.Items)
+				idx := rapid.IntRange(-n-1, n+3).Draw(t, "pidx")
+				if idx < 0 {
+					e = ast.Idx(e, ast.Un("-", ast.Num(strconv.Itoa(-idx))))
+				} else {
+					e = ast.Idx(e, ast.Num(strconv.Itoa(idx)))
+				}
+				k := idx
+				if k < 0 {
+					k += n
+				}
+				if k >= 0 && k < n {
+					cur = cur.Items[k]
+				} else {
+					cur = nil
+				}
+			case cur != nil && cur.K == jsonx.Obj:
+				keys := cur.Keys()
+				var key string
+				if len(keys) > 0 && rapid.IntRange(0, 2).Draw(t, "pexist") > 0 {
+					key = rapid.SampledFrom(keys).Draw(t, "pkey")
+				} else {
+					key = rapid.SampledFrom([]string{"a", "b", "zz", "items", "n"}).Draw(t, "pnewkey")
+				}
+				if ast.Keywords[key] || !identLike(key) {
+					e = ast.Idx(e, ast.Str(key))
+				} else {
+					e = ast.Mem(e, key)
+				}
+				cur = cur.Get(key)
+			default:
+				if rapid.Bool().Draw(t, "pnum") {
+					e = ast.Idx(e, ast.Num(strconv.Itoa(rapid.IntRange(0, 6).Draw(t, "pi"))))
+				} else {
+					e = ast.Mem(e, rapid.SampledFrom([]string{"a", "x", "zz"}).Draw(t, "pk"))
+				}
+				cur = nil
+			}
+		}
+		// optionally finish with a pure method: mostly one the value has, now and
+		// then one it lacks (calling null is a runtime error)
+		m := rapid.IntRange(0, 11).Draw(t, "pmeth")
+		kind := jsonx.Null
+		if cur != nil {
+			kind = cur.K
+		}
+		switch {
+		case m == 0 && (kind == jsonx.Arr || kind == jsonx.Obj || kind == jsonx.Str):
+			return ast.Method(e, "length")
+		case m == 1 && kind == jsonx.Arr:
+			return ast.Method(e, "contains", ast.Num("1"))
+		case m == 2 && kind == jsonx.Arr:
+			return ast.Method(e, "sort")
+		case m == 3 && kind == jsonx.Obj:
+			return ast.Method(e, "pluck", ast.Str("a"), ast.Str("zz"))
+		case m == 4:
+			return ast.Bin("==", e, ast.Null())
+		case m == 5:
+			return ast.Bin("+", e, ast.Num("1"))
+		case m == 6:
+			return ast.Method(e, rapid.SampledFrom([]string{"length", "sort", "pluck", "upper", "floor"}).Draw(t, "anymeth"))
+		}
+		return e
+	})
+}
+
+func identLike(s string) bool {
+	if s == "" {
+		return false
+	}
+	for i, c := range s {
+		if !(c == '_' || c >= 'a' && c <= 'z' || c >= 'A' && c <= 'Z' || i > 0 && c >= '0' && c <= '9') {
+			return false
+		}
+	}
+	return true
 }
